@@ -27,6 +27,8 @@ pub struct Walker {
     /// number of fields of the root table (non-triviality rule: read ok and >= 2 fields)
     pub root_fields: u32,
     pub read_ok: bool,
+    /// number of Err shapes observed (used by the static-blob fit criterion)
+    pub errs: u32,
 }
 
 impl Walker {
@@ -41,6 +43,7 @@ impl Walker {
             depth_hit: false,
             root_fields: 0,
             read_ok: false,
+            errs: 0,
         }
     }
 
@@ -120,6 +123,7 @@ impl Walker {
 
     pub fn err(&mut self, e: &ReadError) {
         self.calls += 1;
+        self.errs += 1;
         match e {
             ReadError::OutOfBounds => self.h.byte(1),
             ReadError::InvalidFormat(x) => {
